@@ -106,9 +106,9 @@ PROPS["C12"] = {
     "level": "exploration",
     "design_ref": "DESIGN.md §3 C12",
     "technique": "bounded-exhaustive poll-level execution of the real byte channel against a reference FIFO with counting wakers; random long sequences; two-thread stress; ThreadSanitizer and Miri",
-    "text": "Every interleaving of poll_read / poll_write / flush / shutdown / drop up to 7 operations (8 thorough) is run on the real byte_channel for capacities 1-3 and request sizes 1-3, with and without the coop budget (1-4): 5e7 sequences quick, 4e8 thorough, each followed by drop-writer and drain-to-EOF, plus random 200-operation sequences up to capacity 64. Every call is judged against a reference FIFO: content, capacity bound, legality of Pending / EOF / error, and the wake obligation (a side whose last poll was Pending must be woken by the call that makes progress possible or closes). A two-thread AsyncRead/AsyncWrite stress checks stream equality and termination and is repeated under TSan (quick) and Miri (thorough).",
+    "text": "Every interleaving of poll_read / poll_write / flush / shutdown / drop up to 7 operations (8 thorough) is run on the real byte_channel for capacities 1-3 and request sizes 1-3, with and without the coop budget (1-4): 5e7 sequences quick, 4e8 thorough, each followed by drop-writer and drain-to-EOF, plus random 200-operation sequences up to capacity 64. Every call is judged against a reference FIFO: content, capacity bound, legality of Pending / EOF / error, and the wake obligation (a side whose last poll was Pending must be woken by the call that makes progress possible or closes). A two-thread AsyncRead/AsyncWrite stress checks stream equality and termination and is repeated under TSan (quick) and Miri (thorough). A close-race part polls one half in a tight loop on a second thread while the other half is dropped: every poll ordered after the drop must find the channel closed. The poll-level parts are run a second time (engine bytechan_nocoop, same sources) against the channel built without its default coop feature - the pass-through twins of the AsyncRead/AsyncWrite impls; each engine first probes which twin it is linked to and is inconclusive if it is the wrong one.",
     "note": "Trusted base: the harness model (VecDeque + two closed flags), tokio ReadBuf and the std Wake machinery; a Pending during which the caller's own waker fired is a budget-forced yield and legal. Beyond the depth bound the assurance is statistical.",
-    "runs": [{"engine": "bytechan"}],
+    "runs": [{"engine": "bytechan"}, {"engine": "bytechan_nocoop"}],
     "sanitizers": [
         {"kind": "tsan", "engine": "bytechan", "args": ["--scale", "1", "--only", "threaded"], "quick": True, "timeout_s": 1800},
         {"kind": "miri", "tier": "quick", "engine": "bytechan", "args": ["--scale", "0.002", "--threads", "1", "--watchdog", "3000"], "timeout_s": 3600},
